@@ -91,6 +91,16 @@ CHECKS = {
          "Every input (corpus, 1-4 seeded mutations per input, grammar documents with one node's kind swapped) is parsed under a panic guard with wall clock recorded; for usable results the monitors require non-nil Steps, no nil step, step counts equal to the input's step sequence obtained independently (yaml.Node + harness merge resolver, recursively in groups), unknown steps equal to the input entry verbatim, at least one reported cause per fallback, and successful JSON and YAML marshalling. Held on the inputs generated; the thorough tier adds coverage-guided fuzzing bounded by execution count.",
          "Inputs above 64 KiB or 2*10^5 expansion nodes are dropped; K3/K5 failures are recognised by failure mode + trigger in the data and counted as known findings.",
          "DESIGN.md §2 C13"),
+ "C16": ("exploration",
+         "reference-model monitor: struct types built with reflect.StructOf from a harness-owned descriptor; expected key partition derived from the descriptor; yaml.v3's decoder as reference on the alias-free subset",
+         "For thousands of generated target types (scalar/slice/map/any/nested/pointer fields, tagged/untagged/skipped/omitempty fields, alias lists, inline map / inline struct / inline pointer incl. nested catch-alls) and well-typed documents drawn from the same descriptor (fields addressed by primary, by one of several present aliases, absent, or null; alias next to primary; keys named like skipped fields; the empty key; extras), decoding into sentinel-pre-populated destinations must put every key in exactly one destination by the rule tag > first present alias > catch-all, leave absent fields untouched and zero null ones; for alias-free types and strictly typed documents the result equals yaml.v3's own decoder. Held on the pairs generated.",
+         "Ill-formed types (an alias equal to another field's key) and append-vs-replace semantics for pre-populated containers are outside the property; yaml.v3 comparison only on the subset yaml.v3 supports.",
+         "DESIGN.md §2 C16"),
+ "C19": ("exploration",
+         "Go race detector (-race build) over barrier-released 16-goroutine workloads + sequential-vs-concurrent result comparison + deep before/after state monitor (hook slot layout, unexported fields included)",
+         "The monitor binary is built with -race; 16 goroutines run whole life cycles on disjoint documents (results compared with a sequential re-run) and hammer fresh, never-before-observed shared fixtures (an ordered map carrying tombstones, a parsed and signed pipeline, a key set, a private key with a shared step, a plugin) with every observer, results compared with those computed on an identically built twin; race reports are read from the detector's log files and any report with a go-pipeline frame is a violation; sequentially, deep state including unexported fields and the hook's slot layout is compared around every observer. Held on the schedules the Go scheduler produced; the overlap achieved is recorded.",
+         "The race detector only sees accesses that executed; randomised ECDSA/PSS signatures are compared by verification.",
+         "DESIGN.md §2 C19"),
 }
 
 NOT_YET = {
